@@ -107,7 +107,7 @@ def _pick_subinterval(r, n, m):
 
 
 def _random_case(r, viol, stats, seen_cfg):
-    n, m = oc.gen_nm(r, 50, 1, ns=(2, 3, 4, 5))
+    n, m = oc.gen_nm(r, 50, 1, ns=(2, 3, 4, 5, 6, 7))
     lo, hi = oc.gen_box(r, n)
     ev = oc.mk_ev(lo, hi, n, m)
     g = oc.Grid(lo, hi, m)
@@ -201,7 +201,7 @@ def run(tier, r):
     samples = []
     lim = 12 if tier == "quick" else 18
     fracs = [r.uniform(0.01, 0.99) for _ in range(257)]
-    cfgs = [(n, m) for n in (2, 3, 4, 5) for m in range(1, 26) if n * m <= lim]
+    cfgs = [(n, m) for n in (2, 3, 4, 5, 6, 7) for m in range(1, 26) if n * m <= lim]
     cfgs.sort(key=lambda c: c[0] * c[1])
     for n, m in cfgs:
         if bud.over(0.8):
